@@ -442,7 +442,7 @@ func init() {
 			n, fails := bigImportDeviations(false, true)
 			r.States += n
 			r.Transitions += n
-			r.Extra["multi_batch_import"] = map[string]any{"leaves": 6000, "cuts_enumerated": n}
+			r.Extra["multi_batch_import"] = map[string]any{"leaves": bigImportLeaves, "cuts_enumerated": n}
 			for _, f := range fails {
 				if id := c.KF.MatchRaw(c.ID, f); id != "" {
 					c.KF.NoteRaw(id, f)
